@@ -172,9 +172,12 @@ def generate(rnd, tier, scale):
         try:
             tree = RC.fix_selections(rnd, RC.rand_tree(rnd, size))
             d = RC.denote(tree)
-        except (IndexError, RecursionError):
+        except (IndexError, RecursionError, RC.TooBig):
             continue
-        if sum(1 for _ in d) > 400 or RC.count_paths(tree) > (1500 if tier == "quick" else 6000):
+        try:
+            if sum(1 for _ in d) > 400 or RC.count_paths(tree) > (1500 if tier == "quick" else 2500):
+                continue
+        except RC.TooBig:
             continue
         made += 1
         yield dict(tree=tree)
